@@ -321,6 +321,17 @@ func chaosPass(c *choice.Src, o engine.Opt, out *engine.Out, skip bool) *chaosWo
 				cw.do(r, "HandlePrivateMsg", m.From, m.Data, func() error { return r.st.HandlePrivateMsg(m.From, m.Data) })
 			}
 		case 1:
+			if n.m.ph == ended && o.Property == "C09" && c.Bool(1, 2, "restart.after.end") {
+				// re-using an instance after End is unspecified for C10 (outside its quantifier), but it
+				// is a call history all the same: whatever happens, nothing may panic (C09). From here
+				// on the node is unmodelled: only the no-panic oracle applies to it.
+				w.fault("lifecycle.restart_after_end")
+				err, _ := w.call(n.Node, "Start(after End)", func() error { return n.st.Start(w.seeds[n.idx]) })
+				w.ev("node %d Start after End -> %s [unmodelled from here]", n.idx, errClass(err))
+				n.m.ph = unknown
+				n.round = 1
+				continue
+			}
 			if n.m.ph == ended || n.m.ph == unknown {
 				continue // restarting an instance after End is outside the quantifier
 			}
